@@ -501,6 +501,30 @@ int main(int argc, char **argv) {
         }
         vh_class("triples", "%d three-thread harnesses", C17_NOPS);
     }
+    /* (c') thorough: every unordered triple of operations i < j < k with (i + j + k) divisible by 5 (a fifth of all triples) */
+    if (vh_thorough && vh_section_begin("triples_all")) {
+        for (int i = 0; i < C17_NOPS; i++) {
+            for (int j = i + 1; j < C17_NOPS; j++) {
+                for (int k = j + 1; k < C17_NOPS; k++) {
+                    if ((i + j + k) % 5) {
+                        continue;
+                    }
+                    if (!vh_case()) {
+                        continue;
+                    }
+                    if (vh_deadline_hit()) {
+                        break;
+                    }
+                    ops[0][0] = i;
+                    ops[1][0] = j;
+                    ops[2][0] = k;
+                    snprintf(HNAME, sizeof HNAME, "threads {%s, %s, %s}", C17_OPS[i].name, C17_OPS[j].name, C17_OPS[k].name);
+                    run_harness(3, 1, ops, 1, 2000);
+                }
+            }
+        }
+        vh_class("triples_all", "a fifth of all unordered triples of %d operations", C17_NOPS);
+    }
     /* (b) 16 threads, each running every operation, each thread a different rotation of the list */
     if (vh_section_begin("sixteen") && vh_case()) {
         int per = C17_NOPS > MAXOPS_PER_THREAD ? MAXOPS_PER_THREAD : C17_NOPS;
